@@ -29,8 +29,11 @@ def run(algo, n_pop, k, n_new, elitism, W, fit_hist, generations, seed=0):
     torch.set_num_threads(1)
     rng = np.random.RandomState(seed)
     pop = []
+    # indices of the first population: in order, reversed, or sparse and unordered (a population sorted by fitness or merged
+    # from two runs) -- the position in the list carries no meaning
+    base = [list(range(n_pop)), list(range(n_pop))[::-1], [10, 11, 3, 9, 0, 7, 5][:n_pop]][seed % 3]
     for i in range(n_pop):
-        a = zoo.make_agent(algo, "vector", seed=100 + seed * 10 + i, index=i)
+        a = zoo.make_agent(algo, "vector", seed=100 + seed * 10 + i, index=base[i])
         zoo.learn(a, algo, i + 1)              # distinct weights + non-trivial optimizer state
         a.fitness = [float(x) for x in fit_hist[i]]
         pop.append(a)
@@ -90,7 +93,7 @@ def run(algo, n_pop, k, n_new, elitism, W, fit_hist, generations, seed=0):
                     e["shared"].append({"a": f"{ptrs[x][0]}{ptrs[x][1]}", "b": f"{ptrs[y][0]}{ptrs[y][1]}", "what": sorted({t[0] for t in inter})})
         ev.append(e)
         # next generation: evaluate (append integer scores), sometimes train
-        pop = new_pop
+        pop = new_pop if (seed + g) % 2 == 0 else new_pop[::-1]       # every other generation handed on in another order
         for a in pop:
             a.fitness.append(float(rng.randint(-2, 4)))
         if g % 2 == 0:
